@@ -155,6 +155,7 @@ fn prefix(rng: &mut Rng, ctx: &mut Ctx) {
         // one file per framing regime in turn, finished (Game End present), varied container shape
         let (mut r, tags) = loop { let kk = k * 7 + (rng.next() % 50) as usize; let (r, t) = gen_replay(rng, kk, &go); let reg = ["regimeA", "regimeB", "regimeC", "regimeA"][k % 4]; let want_gecko = k % 4 == 3; /* the fourth file carries a Gecko list (Message Splitter blocks) */ if t[7] == reg && r.end.is_some() && (!want_gecko || (r.gecko.is_some() && r.frames.len() <= 2)) { break (r, t); } };
         if k % 4 == 3 { r.metadata = None; }
+        if k % 4 == 0 { r.double_end = true; let n = crate::gen::gend_size(r.v); if let Some(e) = r.end.as_mut() { e.resize(n, 255); } } /* by construction: one file of every run has the duplicated Game End (of the version's own size: that is how the reader knows it) */
         if k % 4 == 1 { r.metadata = Some(b"U\x01aSU\x01bU\x00{U\x01cl\x00\x00\x00\x07U\x00{U\x00{U\x01dSU\x00}}}".to_vec()); } /* the empty string is a key like any other: the file ends `}}}}}` */
         let b = encode(&r);
         for skip in [false, true] {
